@@ -62,8 +62,8 @@ def parse_snapshot(tokens):
         k = vals[i]
         if k == "act":
             log.append(("act", vals[i + 1], vals[i + 2], vals[i + 3])); i += 4
-        elif k == "fail":
-            log.append(("fail",)); i += 1
+        elif k in ("fail", "started", "stopped"):
+            log.append((k,)); i += 1
         elif k == "svc":
             log.append(("svc", vals[i + 1])); i += 2
         elif k in ("acterr", "sched", "cancel", "cut", "err", "can", "enter", "leave", "clock"):
@@ -241,6 +241,8 @@ def replay_macro(payload, monitor=None):
             return ("burst", [_ev(x) for x in e[1]])
         if e[0] == "at":
             return ("at", e[1], [_ev(x) for x in e[2]])
+        if e[0] in ("start", "stop"):
+            return (e[0],)
         return (e[0], e[1] if isinstance(e[1], str) else tuple(e[1]), e[2])
     events = [_ev(e) for e in case["events"]]
     cx = {int(k): v for k, v in (case.get("ctx") or {}).items()}
